@@ -343,6 +343,9 @@ func genC04(g *Gen, idx int) *Plan {
 			name = fmt.Sprintf("u/%d", fresh)
 		} else {
 			name = fmt.Sprintf("u/%d", g.Range(1, int64(fresh)+1))
+			if g.Bool(0.3) {
+				name = "bn/" + name // read back an id the gateway may have handed out on its own (broker publish)
+			}
 		}
 		switch {
 		case full || g.Bool(0.55):
@@ -359,6 +362,12 @@ func genC04(g *Gen, idx int) *Plan {
 		}
 	}
 	p.Peers = []PeerPlan{{Name: "p1", Ops: sg.ops}}
+	if !full && g.Bool(0.3) {
+		p.Peers[0].Policy.Register = "accept-stale-id"
+	}
+	if !full && g.Bool(0.3) {
+		p.Cfg.SN.Dup = 0.1 + g.Float()*0.3
+	}
 	p.Cfg.HorizonMs = sg.t + 3000
 	return p
 }
